@@ -4,7 +4,7 @@ use nom::{
 };
 use std::{
     fmt::{self, Display},
-    io,
+    io::{self, Read},
     marker::PhantomData,
     path::PathBuf,
 };
@@ -28,10 +28,15 @@ where
         input.read_exact(&mut buf)?;
         let index_header = IndexHeader::parse(&buf)?;
         // read rest of header (index + data portions)
-        let size_rest =
-            (index_header.data_section_size + index_header.num_entries * INDEX_ENTRY_SIZE) as usize;
-        let mut buf = vec![0; size_rest];
-        input.read_exact(&mut buf)?;
+        // the sizes come from untrusted input: compute in u64 (the u32 sum can overflow) and let the
+        // buffer grow with the bytes actually present instead of allocating up front
+        let size_rest = index_header.data_section_size as u64
+            + index_header.num_entries as u64 * INDEX_ENTRY_SIZE as u64;
+        let mut buf = Vec::new();
+        input.by_ref().take(size_rest).read_to_end(&mut buf)?;
+        if (buf.len() as u64) < size_rest {
+            return Err(io::Error::from(io::ErrorKind::UnexpectedEof).into());
+        }
         Self::parse_header(index_header, &buf[..])
     }
 
